@@ -172,6 +172,7 @@ def const_int(v):
 EXC_PARENT = {
     'KeyError': 'LookupError', 'IndexError': 'LookupError', 'LookupError': 'Exception',
     'ValueError': 'Exception', 'TypeError': 'Exception', 'AttributeError': 'Exception',
+    'UnboundLocalError': 'NameError', 'NameError': 'Exception',
     'RuntimeError': 'Exception', 'NotImplementedError': 'RuntimeError', 'StopIteration': 'Exception',
     'ValueDuplicationError': 'BidictException', 'BidictException': 'Exception',
     'sio.SocketIOError': 'Exception', 'sio.ConnectionError': 'sio.SocketIOError',
